@@ -136,7 +136,7 @@ def _hdr_cmp(ctx, prefix, got_hdr, exp, fields, case, where, machine=None, typef
 def sample_indices(n, full):
     if full or n <= 400:
         return range(n)
-    s = set(range(0, 60)) | set(range(n - 60, n)) | set(range(0, n, 97)) | {0xfeff, 0xff00, 0xff01, 0xfffe, 0xffff, 0x10000}
+    s = set(range(0, 60)) | set(range(n - 60, n)) | set(range(0, n, 97)) | set(range(0xfef8, 0xff10)) | set(range(0xfff8, 0x10010))
     return sorted(i for i in s if 0 <= i < n)
 
 
@@ -325,6 +325,26 @@ def run_case(ctx, case):
             if ok and [dict(x.header) for x in lst] != [dict(segseen[j].header) for j in by_type.get(t, [])]:
                 ctx.fail('iter_segments|type-filter', 'type %s: model indices %r, filter yielded %d segments' % (t, by_type.get(t, []), len(lst)), case)
         ctx.count('filter.segments')
+    # --- another file opened meanwhile must not change what this object reports (per-file decoding state)
+    if (seen or segseen) and valid:
+        other = SWITCHING[(SWITCHING.index(machine) + 1 + len(data) % (len(SWITCHING) - 1)) % len(SWITCHING)] if machine in SWITCHING else SWITCHING[len(data) % len(SWITCHING)]
+        idata, _ = W.build({'cls': m['cls'], 'le': m['le'], 'e_machine': other, 'e_type': 2, 'shstrndx': 2,
+                            'sections': [{'name': '', 'sh_type': 0}, {'name': '.p', 'sh_type': 0x70000001, 'data': b''}, {'name': '.shstrtab', 'sh_type': 3, 'data': b''}],
+                            'segments': [{'p_type': 0x70000001, 'p_offset': 0, 'p_filesz': 0, 'p_memsz': 0}]})
+        ok, _x = guard('isolation|open-other', lambda: [ELFFile(io.BytesIO(idata)).get_section(1)['sh_type'], ELFFile(io.BytesIO(idata)).get_segment(0)['p_type']])
+        for i in list(seen)[:40]:
+            ok, sec = guard('isolation|get_section', lambda: ef.get_section(i))
+            if ok and (dict(sec.header) != dict(seen[i].header) or sec.name != seen[i].name or type(sec) is not type(seen[i])):
+                ctx.fail('isolation|other-open-file|section', 'section[%d] (sh_type %#x, machine %#x) read %r/%s before and %r/%s after a machine-%#x file was opened' % (
+                    i, R['sh'][i]['sh_type'], machine, seen[i]['sh_type'], type(seen[i]).__name__, sec['sh_type'], type(sec).__name__, other), case)
+                break
+        for j in list(segseen)[:40]:
+            ok, seg = guard('isolation|get_segment', lambda: ef.get_segment(j))
+            if ok and (dict(seg.header) != dict(segseen[j].header) or type(seg) is not type(segseen[j])):
+                ctx.fail('isolation|other-open-file|segment', 'segment[%d] (p_type %#x, machine %#x) read %r before and %r after a machine-%#x file was opened' % (
+                    j, R['ph'][j]['p_type'], machine, segseen[j]['p_type'], seg['p_type'], other), case)
+                break
+        ctx.count('isolation.checked')
     _register(ctx, m, R, data)
 
 
@@ -548,12 +568,23 @@ def sweep(tier):
                          'data': None, 'sh_offset': i, 'sh_size': i % 100, 'sh_link': i % 7, 'sh_info': i % 11,
                          'sh_addralign': 1 << (i % 5), 'sh_entsize': i % 9})
         secs[shstr].update(sh_type=3, data=b'', name='.shstrtab')
+        # tables that link to one another through indices in and around the range that is reserved only in 16-bit fields
+        # (sh_link is a plain 32-bit index): string table <- dynamic symbol table <- version / hash tables
+        for base in (0xfefd, 0xff00, 0xffff, 0x10003):
+            if base + 4 < nsec and not (base <= shstr <= base + 4):
+                secs[base].update(sh_type=3, data=b'\0', name='.dynstr')
+                secs[base + 1].update(sh_type=11, sh_link=base, sh_entsize=W.SYM_SIZE[cls], sh_size=0, name='.dynsym')
+                secs[base + 2].update(sh_type=0x6fffffff, sh_link=base + 1, sh_size=0, name='.gnu.version')
+                secs[base + 3].update(sh_type=5, sh_link=base + 1, data=W.enc_sysv_hash(le, [b''], 1), name='.hash')
+                secs[base + 4].update(sh_type=0x6ffffffd, sh_link=base, sh_size=0, name='.gnu.version_d')
         segs = [{'p_type': (1, 4, 0x6474e551, 6)[j % 4], 'p_flags': j % 8, 'p_offset': j, 'p_vaddr': j * 4096 % (1 << 32),
                  'p_paddr': j, 'p_filesz': j % 1000, 'p_memsz': j % 2000, 'p_align': 4096} for j in range(nseg)]
         return {'cls': cls, 'le': le, 'e_machine': 62, 'e_type': 3, 'sections': secs, 'segments': segs, 'shstrndx': shstr,
                 'order': ['sh', shstr, 'ph'], 'full_compare': False}
-    cases.append(big(0xff00, 3, 64, True, 0xff00 - 1))
+    cases.append(big(0xff20, 3, 64, True, 0xff20 - 1))
     if tier == 'thorough':
+        cases.append(big(0xff00, 3, 64, True, 0xff00 - 1))
+        cases.append(big(0x10010, 2, 32, True, 0xffff))
         cases.append(big(0xff01, 0xffff, 32, False, 0xff00))
         cases.append(big(70000, 70001, 64, False, 69999))
         cases.append(big(5, 0xffff, 32, True, 2))
